@@ -353,6 +353,31 @@ def run(ctx, driver):
                 rec.fail("class-does-not-match-cause", {"proto": "h2-concurrent", "cause": "stream-reset-by-server", "got": c.outcome.split(":")[1]},
                          {"runtime": rt, "cfg": cfg, "seed": seed, "caller": c.idx, "exception": getattr(c, "exc", None),
                           "trace": [list(map(str, t)) for t in ex.trace][-40:], "how_to_replay": "h2x.run_one(runtime, cfg, seed)"})
+    # an upload that has run out of credit, an early response head, then the end of the input (EOF, read error or time-out): the call
+    # returns with the error, it does not wait or spin for ever
+    for i in range((60 if ctx.quick else 1500) * (5 if ctx.broken and ctx.quick else 1)):
+        cfg = {"max_connections": 1, "callers": rng.randint(1, 2), "early_response": True, "auto_credit": False, "segment": "coarse",
+               "init_max_streams": 10, "ups": [70000, 200000], "downs": [0, 10], "p_eof": 0.25, "p_fault": rng.choice([0.0, 0.15]),
+               "p_winsettings": 0.0, "p_ping": 0.0, "p_settings": 0.0, "max_steps": 60, "wall_limit": 3.0}
+        seed = rng.randrange(1 << 30)
+        rt = ("asyncio", "trio")[i % 2]
+        ex = h2x.run_one(rt, cfg, seed)
+        rec.evals += 1
+        rec.distinct.add(("h2x-early", rt, tuple(map(str, ex.trace))))
+        if ctx.violations and any(v["clause"] == "call-never-returns" for v in ctx.violations):
+            break           # found: every further spinning run would cost its whole real-time budget
+        for c in ex.callers:
+            rec.dist[f"h2-early-response:{c.outcome}"] += 1
+        ended = any(t[0] in ("eof", "fault") for t in ex.trace)
+        hung = [c.idx for c in ex.callers if c.state != "done"] or [c.idx for c in getattr(ex, "stuck", [])]
+        # "inconclusive" (the schedule ran out of real time) with no network operation outstanding means the client kept running
+        # without ever waiting for the network: it spins
+        parked = [p for p in ex.net.pending if not p.done]
+        spinning = getattr(ex, "wall_limited", False) and not parked
+        if (hung and ((ended and not getattr(ex, "inconclusive", False)) or spinning)) or getattr(ex, "livelock", False):
+            rec.fail("call-never-returns", {"proto": "h2", "when": "upload-stalled-after-early-response"},
+                     {"runtime": rt, "cfg": cfg, "seed": seed, "callers": hung, "livelock": bool(getattr(ex, "livelock", False)), "spinning": bool(spinning),
+                      "trace": [list(map(str, t)) for t in ex.trace][-40:], "how_to_replay": "h2x.run_one(runtime, cfg, seed)"})
     # the same, directed: three requests start together; the k-th network operation fails
     for k in range(14):
         for timeout in (False, True):
